@@ -289,7 +289,20 @@ class Ctx:
         confirmed = 0
         rdir = HOME / "replays" / self.prop
         for key, (count, what, case) in sorted(self.violations.items()):
-            if case is not None and hasattr(self.module, "replay_case") and not getattr(self.module, "NONDETERMINISM_IS_VIOLATION", False):
+            gate_any = getattr(self.module, "gate_any", None)
+            if case is not None and hasattr(self.module, "replay_case") and gate_any is not None and gate_any(case):
+                # the case involves real OS-level parallelism that the harness does not own (loky workers): the symptom itself
+                # is timing dependent; it is accepted if it shows again in one of three straight-line replays
+                ok = False
+                for _ in range(3):
+                    with quiet():
+                        vs = self.module.replay_case(case)
+                    if key in {v["key"] for v in vs}:
+                        ok = True
+                        break
+                if not ok:
+                    raise HarnessError(f"violation {key!r} (parallel case) did not reproduce in three replays; no verdict")
+            elif case is not None and hasattr(self.module, "replay_case") and not getattr(self.module, "NONDETERMINISM_IS_VIOLATION", False):
                 keys = []
                 for _ in range(2):
                     with quiet():
